@@ -19,6 +19,7 @@ from __future__ import annotations
 import random
 
 from vlib import agg_adapters as A
+from vlib import c01_scenarios as S
 
 ID = 'C01'
 LEVEL = 'exploration'
@@ -29,17 +30,39 @@ RULE = (
     '1-D and 2-D inputs, ragged rankings, str and int labels; 1-5 shards, some '
     'empty; every shard cut into 1..6 unequal batches; non-trivial = dataset >= 3 '
     'rows and (>= 2 shards or >= 2 non-empty batches of unequal size); distinct = '
-    'hash(adapter, mode, dataset seed, n, composition)')
+    'hash(adapter, mode, dataset seed, n, composition). Input classes generated on purpose '
+    '(second audit round): Mean / MeanAndVariance / Var data with +inf / -inf among finite '
+    'values and no NaN (adapters ",inf"); multiclass / multiclass-multioutput labels WITHOUT '
+    'a vocabulary under micro / macro / samples / top-k with every rate requested and '
+    'classes that drift along the dataset, so that batches and shards see different class '
+    'sets (adapters ",all-metrics"); two-class multiclass labels under the default '
+    'average=binary without vocabulary (int labels 0 / 8 whose set order is the insertion '
+    'order whatever PYTHONHASHSEED is, and str labels), with an explicit-vocabulary control; '
+    'binary / multiclass-indicator input with macro average and no vocabulary; '
+    'KerasAggregateFn around a stand-in metric (instance and factory); scenario '
+    'reservoir_many (vlib/c01_scenarios.py): 20-300 tiny FixedSizeSample shards, or 3-8 '
+    'shards of 1e5-3e6 samples fed as ranges, merged (left fold / balanced tree / one n-ary '
+    'merge_states) and the merged sampler fed 1-3 further batches. A violation is keyed '
+    '(mechanism) by the configuration / input class of the case and the quantity that '
+    'differs, never by a value')
 ASSUMPTIONS = [
     'Mean / MeanAndVariance / Var: every batch is non-empty ("a non-vacant series"); '
     'empty shards (fresh accumulators) are generated, empty batches are not',
     'MinMaxAndCount: non-negative values (documented over counts, max starts at 0), '
     'batch_score_fn=None (a batch score such as len is batch-dependent by definition)',
-    'confusion matrices with macro averaging always get a vocabulary (documented '
-    'requirement, also for merge_states on binary / indicator input)',
-    'multiclass / multioutput confusion matrices with vocab=None: only tn-free '
-    'quantities (precision, recall, f1, threat score, ...) are requested, because the '
-    'vocabulary is "deduced within this input"; same for samplewise metrics',
+    'multiclass / multioutput labels without a vocabulary: the one-batch run (vocabulary = '
+    'the classes of the whole dataset) is the reference; a batched / sharded run must give '
+    'the same values, or refuse explicitly: a ValueError whose message names the vocab, '
+    'raised by update_state or merge_states, is accepted and counted (documented_refusals; '
+    'the docstring requires a vocab for distributed macro averaging); a silently different '
+    'value, or any other exception (broadcasting), is a violation. The older adapters '
+    'without ",all-metrics" request only tn-free quantities (precision, recall, f1, threat '
+    'score, ...) and keep their behaviour',
+    'binary / multiclass-indicator input never uses a vocabulary: a merge_states that '
+    'demands one (macro average) is a violation, not a refusal',
+    'average=binary on multiclass labels is only generated with exactly two classes in the '
+    'pool (more raise by design); which class is "positive" is not documented, so only the '
+    'invariance (several batches == one batch) is demanded, never a value',
     'confusion-matrix `accuracy` is only requested under samples averaging; '
     '`mean_average_precision` of the confusion-matrix enum is not implemented upstream',
     'zero-row batches are only fed to metrics where they are plainly valid (Histogram, '
@@ -56,13 +79,19 @@ ASSUMPTIONS = [
     'ValueAccumulator without concat_fn: the unit of add() is one value, so a batch '
     'is fed value by value; concat_fn is list "+" or np.concatenate (non-mutating)',
     'FixedSizeSample: fixed integer seed (seed=None is not replayable); only size, '
-    'membership (as a multiset) and num_samples_reviewed are compared',
+    'membership (as a multiset) and num_samples_reviewed are compared; in the many-states '
+    'scenario the values are distinct consecutive ints handed over as `range` objects '
+    '(sized, sliceable, indexable: what add() uses), so membership = inside the range and '
+    'at most once; that later samples are admitted with the right probability is NOT '
+    'checked (only that add() keeps working and the three invariants hold)',
     'FrequencyState has no add(): a batch enters as merge(FrequencyState(Counter(batch), '
     'len(batch))), which is what the text metrics do',
     'TopKRetrieval with input_type=multiclass: single-character class ids as in the '
     'upstream test (len() of the label is taken)',
     'numeric data are dyadic rationals with |x| <= 1000 (sums exact); comparison '
-    'rtol 1e-9, atol 1e-12 x result scale; NaN == NaN',
+    'rtol 1e-9, atol 1e-12 x result scale; NaN == NaN; the ",inf" adapters add +inf / -inf '
+    'entries (never NaN): an infinite / NaN result must be reproduced in kind (same '
+    'infinity, NaN only for NaN) by every batching',
     'for CallableMetric subclasses the merge-free evaluation of one batch, new(batch) '
     '(what __call__ uses), must report what add(batch) on a fresh accumulator reports; '
     'for the text metrics the value returned by add() is that batch result; skipped when '
@@ -73,12 +102,18 @@ ASSUMPTIONS = [
     'get_metric() of the batch confusion matrix returned by add() is the merge-free value',
     'when both paths raise the same exception type (e.g. result() of a never-fed '
     'RRegression) they agree; this is counted as `both_raise`',
-    'Keras wrapper excluded (Keras not installed); AggFnNested excluded '
-    '(merge_states is unimplemented upstream)',
+    'KerasAggregateFn: Keras is not installed; the wrapper is duck-typed on the KerasMetric '
+    'protocol it documents (update_state / reset_state / merge_state / result), so it is '
+    'driven with a stand-in mean metric implementing exactly that protocol, handed over as '
+    'an instance and as a factory function; AggFnNested excluded (merge_states is '
+    'unimplemented upstream)',
 ]
 FAMILY_COUNTERS = ['family:' + f for f in A.EXPECTED_FAMILIES]
 REQUIRED = ['merge_checks', 'one_batch_state_checks', 'obj_api_checks', 'aggfn_api_checks', 'per_row_checks',
-            'reservoir_checks', 'empty_shard_cases', 'nan_cases',
+            'reservoir_checks', 'empty_shard_cases', 'nan_cases', 'inf_cases',
+            'no_vocab_all_metrics_cases',
+            'reservoir_many_states_cases', 'reservoir_many_tiny_cases',
+            'reservoir_many_large_cases', 'reservoir_add_after_merge_checks',
             'inventory_classes_covered'] + FAMILY_COUNTERS
 EXHAUSTIVE = {'quick': False, 'thorough': False}
 CHUNK_TIMEOUT_S = {'quick': 240, 'thorough': 3000}
@@ -88,10 +123,10 @@ CASES_PER_ADAPTER_MODE = {'quick': 250, 'thorough': 6000}
 
 
 def plan(tier, seed):
-  ams = A.adapter_modes()
+  ams = A.adapter_modes('C01')
   k = N_CHUNKS[tier]
   specs = [{'work': [], 'rseed': seed, 'cases': CASES_PER_ADAPTER_MODE[tier],
-            'inventory': i == 0} for i in range(k)]
+            'inventory': i == 0, 'scenarios': S.plan_slice(tier, i, k)} for i in range(k)]
   # Split every adapter-mode's cases over a few chunks so that chunks are even.
   parts = 1 if tier == 'quick' else 8
   j = 0
@@ -191,6 +226,11 @@ def check_case(ctx, case, reg):
     ctx.count('empty_shard_cases')
   if _has_nan(rows):
     ctx.count('nan_cases')
+  if A._contains_inf(rows):  # pylint: disable=protected-access
+    ctx.count('inf_cases')
+  if getattr(ad, 'needs_vocab', False) and not ad.with_vocab and getattr(
+      ad, 'metric_set', '') == 'all':
+    ctx.count('no_vocab_all_metrics_cases')
   lit = {'rows': _lit(rows), 'comp': comp, 'api': mode}
 
   # ---- reference: one accumulator, one batch --------------------------------
@@ -202,6 +242,10 @@ def check_case(ctx, case, reg):
       if ad.per_row and mode == 'obj' and n > 0:
         ref_rowvals = ad.row_values(out, n)
   except Exception as e:  # pylint: disable=broad-exception-caught
+    if ad.accepts_refusal(A.exc_info(e), 'add'):
+      # the configuration is refused outright (also for one batch)
+      ctx.count('documented_refusals')
+      return
     # The one-batch path itself rejects the generated input: not a C01 event.
     ctx.inconclusive_case('reference path raised: ' + repr(A.exc_info(e)), case)
     return
@@ -256,6 +300,9 @@ def check_case(ctx, case, reg):
   try:
     handles, batch_rowvals = build_subject(range(len(comp)))
   except Exception as e:  # pylint: disable=broad-exception-caught
+    if ref_obs[0] == 'ok' and ad.accepts_refusal(A.exc_info(e), 'add'):
+      ctx.count('documented_refusals')
+      return
     if ref_obs[0] == 'ok':
       _violate(ctx, ad, 'batched_add_raises', case,
                dict(lit, want='same as one batch'), exc=A.exc_info(e), rows=rows)
@@ -268,6 +315,9 @@ def check_case(ctx, case, reg):
   except Exception as e:  # pylint: disable=broad-exception-caught
     if ref_obs[0] != 'ok':
       ctx.count('both_raise')
+      return
+    if ad.accepts_refusal(A.exc_info(e), 'merge'):
+      ctx.count('documented_refusals')
       return
     _violate(ctx, ad, 'merge_raises', case, dict(lit, want='same as one batch'),
              exc=A.exc_info(e), rows=rows)
@@ -348,7 +398,12 @@ def run_chunk(ctx, spec):
       check_case(ctx, case, reg)
       if i == lo and len(ctx.samples) < 2:
         ctx.sample({k: case[k] for k in ('adapter', 'mode', 'n', 'comp')})
+  for item in spec.get('scenarios', ()):
+    S.run_item(ctx, spec['rseed'], tier, item)
 
 
 def run_case(ctx, case):
+  if case.get('scenario'):
+    S.check(ctx, case)
+    return
   check_case(ctx, case, A.registry())
